@@ -17,10 +17,15 @@ OffCands(z, w) == {[k |-> "none", o |-> 0], [k |-> "z", o |-> 0], [k |-> "offset
                   \cup {[k |-> "offset", o |-> (o \div 60) * 60] : o \in AllOffsets(z)} \cup {[k |-> "offset", o |-> (o \div 60) * 60 + 60] : o \in AllOffsets(z)}
 FromString(w, oc, dis, oo) == last' = [op |-> "interpret", z |-> cur, w |-> w, oc |-> oc, dis |-> dis, oo |-> oo,
                                        out |-> Interpret(cur, w, oc.k, oc.o, dis, oo, TRUE)] /\ UNCHANGED cur
+\* property bags: offsets of whole minutes only, never Z
+BagCands(z, w) == {c \in OffCands(z, w) : c.k # "z" /\ c.o % 60 = 0}
+FromBag(w, oc, dis, oo) == last' = [op |-> "bag", z |-> cur, w |-> w, oc |-> oc, dis |-> dis, oo |-> oo,
+                                    out |-> InterpretBag(cur, w, oc.k, oc.o, dis, oo)] /\ UNCHANGED cur
 Next == /\ (OneStep => last = None)
         /\ \/ \E w \in Walls, dis \in Diss : FromLocal(w, dis)
            \/ \E t \in Instants : ToWall(t)
            \/ \E w \in IWalls, dis \in {"compatible", "reject"}, oo \in OffOpts : \E oc \in OffCands(cur, w) : FromString(w, oc, dis, oo)
+           \/ \E w \in IWalls, dis \in {"compatible", "later"}, oo \in OffOpts : \E oc \in BagCands(cur, w) : FromBag(w, oc, dis, oo)
 Spec == Init /\ [][Next]_vars
 
 \* every candidate maps back to the reading
